@@ -1,12 +1,16 @@
 #!/bin/sh
-# confirm the fifth-wave seeded changes: filed as <property>-Z
+# confirm the fifth-wave seeded changes: patchA filed as <property>-Z, patchB as <property>-Z2
 cd "$(dirname "$0")/.."
 for wt in /tmp/seed5/wt-C*; do
   p=$(basename $wt | sed 's/wt-//')
-  [ -f $wt/NOTES.md ] && [ -f $wt/patchA.diff ] && [ -f $wt/demoA.c ] || continue
-  [ -f seeded/$p-Z/meta.json ] && continue
-  grep -q "^$p-Z " /tmp/seed5/confirm.log 2>/dev/null && continue
-  res=$(/usr/bin/python3 tools/seeded_confirm.py $p A $wt --id $p-Z "$@" 2>&1 | tail -1)
-  echo "$p-Z $res" >> /tmp/seed5/confirm.log
-  echo "$p-Z $res" | cut -c1-500
+  [ -f $wt/NOTES.md ] || continue
+  for L in A B; do
+    [ -f $wt/patch$L.diff ] && [ -f $wt/demo$L.c ] || continue
+    id=$p-Z; [ $L = B ] && id=$p-Z2
+    [ -f seeded/$id/meta.json ] && continue
+    grep -q "^$id " /var/tmp/seed5-confirm.log 2>/dev/null && continue
+    res=$(/usr/bin/python3 tools/seeded_confirm.py $p $L $wt --id $id "$@" 2>&1 | tail -1)
+    echo "$id $res" >> /var/tmp/seed5-confirm.log
+    echo "$id $res" | cut -c1-600
+  done
 done
